@@ -47,8 +47,13 @@ package frame
 //@ spec func cellAt(f Frame, c int, i int) int = ColMem[f.data[c].ptr][f.off+i]
 //@ spec func cellLess(f Frame, c int, i int, j int) bool = elemLess(colKind(f.data[c].ptr), cellAt(f, c, i), cellAt(f, c, j))
 
+// Columns of one frame are distinct Go slices: their base pointers are pairwise different. Stated through an
+// (uninterpreted) numbering so that no quantified disequality is needed.
+//@ spec func colIndex(dataArr int, p Ref) int
+//@ spec func distinctCols(f Frame) bool = forall(k, 0, len(f.data), colIndex(f.data.arr, f.data[k].ptr) == k)
+
 //@ func frame.Frame.Swap
-//@   requires wf(f) && 0 <= i && i < f.len && 0 <= j && j < f.len
+//@   requires wf(f) && distinctCols(f) && 0 <= i && i < f.len && 0 <= j && j < f.len
 //@   ensures  rows-exchanged: forall(k, 0, len(f.data), ColMem[f.data[k].ptr] == upd(upd(old(ColMem[f.data[k].ptr]), f.off+i, old(ColMem[f.data[k].ptr][f.off+j])), f.off+j, old(ColMem[f.data[k].ptr][f.off+i])))
 //@   modifies ColMem
 //@   loop 1 invariant forall(c, 0, range_idx, ColMem[f.data[c].ptr] == upd(upd(old(ColMem[f.data[c].ptr]), f.off+i, old(ColMem[f.data[c].ptr][f.off+j])), f.off+j, old(ColMem[f.data[c].ptr][f.off+i])))
@@ -85,3 +90,22 @@ package frame
 //@   ensures  exactly-the-view: encCalls == old(encCalls) + 1 && lastEncCol == f.data[col].ptr && lastEncLo == f.off && lastEncHi == f.off + f.len
 //@   ensures  rows-outside-untouched: forall(k, implies(k < f.off || k >= f.off + f.len, ColMem[f.data[col].ptr][k] == old(ColMem[f.data[col].ptr][k])))
 //@   modifies ColMem[f.data[col].ptr], encCalls, lastEncCol, lastEncLo, lastEncHi
+
+// ---- hashing (C05/C11): the row hash is the xor of the element hashes of the key columns at row off+i ----
+//@ spec func hashUpTo(mem [0][0]int, cols [0]data, base int, row int, seed uint32, k int) uint32
+//@ axiom hashUpTo-zero: hashUpTo(mem, cols, base, row, seed, 0) == 0
+//@   vars mem [0][0]int, cols [0]data, base int, row int, seed uint32
+//@ axiom hashUpTo-step: implies(k >= 0, hashUpTo(mem, cols, base, row, seed, k+1) == hashUpTo(mem, cols, base, row, seed, k) ^ elemHash(colKind(cols[base+k].ptr), mem[cols[base+k].ptr][row], seed))
+//@   vars mem [0][0]int, cols [0]data, base int, row int, seed uint32, k int
+//@ spec func rowHash(f Frame, i int, seed uint32) uint32 = hashUpTo(ColMem, elemsof(f.data), f.data.off, f.off+i, seed, f.prefix+1)
+
+//@ func frame.Frame.HashWithSeed
+//@   requires wf(f) && 0 <= i && i < f.len && f.prefix >= 0
+//@   ensures  key-columns-at-row: result == rowHash(f, i, seed)
+//@   modifies nothing
+//@   loop 1 invariant 0 <= col && col <= f.prefix && hash == hashUpTo(ColMem, elemsof(f.data), f.data.off, f.off+i, seed, col)
+
+//@ func frame.Frame.Hash
+//@   requires wf(f) && 0 <= i && i < f.len && f.prefix >= 0
+//@   ensures  result == rowHash(f, i, 0)
+//@   modifies nothing
